@@ -3,6 +3,9 @@
 //! process (see engine::shard): sozu-lib keeps process-global state.
 
 pub mod h1;
+pub mod h2;
+pub mod h2lab;
+pub mod hdrlab;
 pub mod httplab;
 pub mod script;
 
